@@ -1,5 +1,6 @@
 """C05 — accepted commitments satisfy every mandatory policy bound."""
 import lib
+import gen_rustfn
 
 MANIFEST = dict(
     text="Coq theorem C05_accept_implies_bounds: for every policy, setup, chain state, enforcement state, commitment "
@@ -16,7 +17,7 @@ MANIFEST = dict(
          "lists, repeated HTLC entries included, and that content is within the bounds), filter theorems (only "
          "an explicit Warn rule downgrades).  The model is run against the real validators (through the Validator "
          "trait) and against Channel::sign_counterparty_commitment_tx_phase2 on every run with boundary-crossed "
-         "inputs, and an independent u128 reference predicate monitors every acceptance.",
+         "inputs, and an independent u128 reference predicate monitors every acceptance.  C05_feerate_estimate_is_source / C05_commitment_weight_is_source: the fee helpers ARE the source's - estimate_feerate_per_kw and expected_commitment_tx_weight (util/transaction_utils.rs) are translated on every run by tools/gen_rustfn.py (Gen/TxUtilGen.v) and proved equal to the model's definitions for every u64 fee and non-zero weight, in both build profiles.",
     design="§4 C05",
     note=lib.TB + "Side conditions stated in the theorem: max_feerate_per_kw < u32::MAX (u32::MAX means no maximum "
          "after the repair saturates), and in release builds current_height + delay <= u32::MAX (debug builds panic "
@@ -39,7 +40,22 @@ def _strip(c):
 
 def run(res):
     quick = res.tier == "quick"
-    lib.proof_stage(res, "C05.v", "Props.C05", PINNED)
+    # the translator regenerates Gen/TxUtilGen.v from /repo's transaction_utils.rs under the build lock, right before
+    # the theorems that relate it to the model's fee helpers are re-checked
+    report = {}
+
+    def regen():
+        report.update(gen_rustfn.generate_txutil(lib.REPO))
+    try:
+        lib.proof_stage(res, "C05.v", "Props.C05", PINNED + ["C05_feerate_estimate_is_source",
+                                                            "C05_feerate_estimate_zero_weight_panics",
+                                                            "C05_commitment_weight_is_source"], pre=regen)
+    except gen_rustfn.GenError as e:
+        res.violation("the translator cannot read estimate_feerate_per_kw / expected_commitment_tx_weight (a construct "
+                      "outside its fragment): %s" % e,
+                      {"translator": "tools/gen_rustfn.py", "source": "vls-core/src/util/transaction_utils.rs",
+                       "error": str(e), "theorem": "C05_feerate_estimate_is_source"}, has_input=False)
+    res.coverage["translated_from_source"] = report
     cov = res.coverage
     profiles = ["debug"] if quick else ["debug", "release"]
     n_commit = 3000 if quick else 100000
